@@ -207,6 +207,29 @@ def gen_case(rng, direction, opts=None):
     return case
 
 
+def gen_many_case(rng, direction):
+    """Hundreds of small files in about 150 directories with long names: the directory list, the file
+    listing and the delete list each exceed 64 KiB, the transfer queue is far longer than any job count."""
+    n = rng.range(300, 600)
+    src, dst, states = {}, {}, {}
+    new, old = (1_700_000_000, 0), (1_600_000_000, 0)
+    for i in range(n):
+        p = "dir-%03d-%s/file-%04d-%s" % (i % 150, "x" * 100, i, "y" * 20)
+        data = b"content %d" % i
+        st = rng.pick(["absent", "absent", "absent", "same", "same", "size", "srcgone", "srcgone"])
+        states[p] = st
+        if st == "srcgone":
+            dst[p] = (data, old)
+            continue
+        src[p] = (data, new)
+        if st == "same":
+            dst[p] = (data, new)
+        elif st == "size":
+            dst[p] = (data + b"+", old)
+    flags = {"delete": rng.chance(2, 3), "excludes": rng.pick([[], [], ["file-00*"], ["dir-01*"]]), "jobs": rng.pick([1, 4, 16, 64]), "verbose": False}
+    return {"src": src, "dst": dst, "states": states, "flags": flags, "direction": direction, "dstname": "dst", "srcname": "src", "dst_exists": True}
+
+
 class OneWay:
     """Materialised case in a scratch root with the ssh stand-in installed."""
 
@@ -406,6 +429,9 @@ def _c04_worker(args):
         for direction in DIRECTIONS:
             rng = SplitMix.derive(seedv, "c04", idx)  # same trees in all three directions
             case = gen_case(rng, direction)
+            if idx % 40 == 7:
+                case = gen_many_case(rng, direction)
+                cnt("cases_with_hundreds_of_files")
             ow = OneWay(os.path.join(wroot, "w%d" % lo), case)
             fl = case["flags"]
             srcm, src0 = ow.meta("src")
@@ -561,6 +587,9 @@ def _c14_worker(args):
         for direction in DIRECTIONS:
             rng = SplitMix.derive(seedv, "c14", idx)
             case = gen_case(rng, direction, {"clash": False})
+            if idx % 50 == 9:
+                case = gen_many_case(rng, direction)
+                cnt("cases_with_hundreds_of_files")
             ow = OneWay(os.path.join(wroot, "w%d" % lo), case)
             fl = case["flags"]
             label = {"case": idx, "direction": direction, "flags": fl, "dstname": case["dstname"]}
